@@ -119,6 +119,9 @@ NodeCalls ==
   \cup {[C("ResizeInputs") EXCEPT !.n = n, !.i = k] : n \in N, k \in {-1, 0, 1, 3}}
   \cup {[C("ResizeOutputs") EXCEPT !.n = n, !.i = k] : n \in N, k \in {-1, 0, 1, 2}}
   \cup {[C("ReplaceAllUses") EXCEPT !.v = v, !.w = w, !.flag = f] : v \in PV, w \in PV, f \in BOOLEAN}
+  \* the sequence form: two pairs with one replacement (failure at the second pair after the first was applied)
+  \cup {c \in {[C("ReplaceAllUsesSeq") EXCEPT !.vs = <<v1, v2>>, !.ws = <<w, w>>, !.flag = f] :
+                  v1 \in PV, v2 \in PV, w \in PV, f \in BOOLEAN} : c.vs[1] # c.vs[2]}
 
 \* node pairs: all ordered pairs of distinct nodes plus one repeated pair
 NPairs2 == {q \in NPairs : q[1] # q[2] \/ q[1] = 1}
